@@ -140,14 +140,22 @@ func TestC07a(t *testing.T) {
 	if env.Thorough() {
 		nMesh, nE, nSC, nVS = len(meshForms), len(exportToValues), len(sidecarForms), len(vsForms)
 	}
-	// quick: the legacy namespace tie-break (flag 1) only under the default mesh settings and only
-	// with a VirtualService present (the flag is read nowhere else)
-	skip := func(idx []int) bool { return !env.Thorough() && idx[4] == 1 && idx[0] != 0 }
+	// the legacy namespace tie-break (flag 1; read only when a VirtualService destination is inferred):
+	// quick under the default mesh settings only, thorough under the first four mesh settings
+	skip := func(idx []int) bool {
+		if idx[4] == 0 {
+			return false
+		}
+		if env.Thorough() {
+			return idx[0] >= meshQuick
+		}
+		return idx[0] != 0
+	}
 	dims := []int{nMesh, nE, nE, nSC, nFlag}
 	res.Bounds["dims(mesh,e1,e2,sidecar,flag)"] = dims
 	res.Bounds["virtualservice_forms"] = nVS
 	res.Bounds["proxies"] = len(proxies)
-	res.Bounds["quick_restriction"] = "flag=1 (PILOT_SIDECAR_PICK_BEST_SERVICE_NAMESPACE=false) only with mesh defaults"
+	res.Bounds["flag_restriction"] = "flag=1 (PILOT_SIDECAR_PICK_BEST_SERVICE_NAMESPACE=false): quick only with mesh defaults, thorough only with the first 4 mesh settings"
 	var worlds, fam int64
 	engine.Product(dims, func(ord int64, idx []int) bool {
 		if skip(idx) {
@@ -224,6 +232,9 @@ func replay(t *testing.T, res *engine.Result, rp replayT) {
 		}
 	case "b":
 		replayB(t, res, rp)
+		return
+	case "c":
+		replayC(t, res, rp)
 		return
 	default:
 		t.Fatalf("unknown part %q", rp.Part)
